@@ -10,3 +10,5 @@ z3 --version
 cvc5 --version | head -1
 python3 -c "import json,sys; json.load(open('/verif/MANIFEST.json')); print('manifest ok')"
 mkdir -p /verif/evidence /verif/replays /verif/logs
+# native self-test: container models vs the real containers, and every replay driver on the current tree
+python3 /verif/tools/selftest.py
